@@ -140,15 +140,16 @@ class Engine:
                     raise Violation(self.prop, "lookup", {"after": ctx, "what": f"{dbh}[{k}]"})
             try:
                 db[len(tabs)]
-                raise Violation(self.prop, "lookup", {"after": ctx, "what": f"{dbh}[{len(tabs)}] did not raise"})
-            except IndexError:
+            except Exception:
                 pass
+            else:
+                raise Violation(self.prop, "lookup", {"after": ctx, "what": f"{dbh}[{len(tabs)}] did not raise"})
             keys = w.db_keys(dbh)
             for key in sorted(self.keys_ever):
                 want = keys.get(key)
                 try:
                     got = db[key]
-                except KeyError:
+                except Exception:   # the statement does not name the error of a failed lookup
                     got = None
                 if want is None and got is not None:
                     raise Violation(self.prop, "lookup", {"after": ctx, "what": f"{dbh}[{key!r}] answers but no "
@@ -169,7 +170,7 @@ class Engine:
                 want = next((c for c in cols if w.m[c]["name"] == name), None)
                 try:
                     got = t[name]
-                except self.env.exc.ColumnNotFoundError:
+                except Exception:
                     got = None
                 g2 = t.get(name)
                 if (want is None) != (got is None) or (want is not None and got is not real[want]) or g2 is not got:
